@@ -1,6 +1,7 @@
 package main
 
 import (
+	"encoding/json"
 	"go/ast"
 	"go/constant"
 	"go/token"
@@ -233,3 +234,60 @@ func posOf(n ast.Node) token.Pos {
 }
 
 func exprStr(e ast.Expr) string { return types.ExprString(e) }
+
+// isNewFunc: fn is a declared function of its package that the reference tree (anchors.json) does
+// not know — a helper introduced since (typically extracted from an anchored function).
+func (p *Program) isNewFunc(fn *ssa.Function) bool {
+	if fn == nil || fn.Parent() != nil || fn.Synthetic != "" || fnPkg(fn) == nil || !strings.HasPrefix(fnPkg(fn).Path(), modPath) {
+		return false
+	}
+	if anchorTable == nil {
+		anchorTable = map[string]map[string]string{}
+		_ = json.Unmarshal(anchorJSON, &anchorTable)
+	}
+	suffix := strings.TrimPrefix(strings.TrimPrefix(fnPkg(fn).Path(), modPath), "/")
+	known, ok := anchorTable[suffix]
+	if !ok {
+		return false
+	}
+	k, _ := funcKeyAndSig(fn)
+	if _, old := known[k]; old {
+		return false
+	}
+	// a renamed anchor is not new
+	for _, to := range Renamed {
+		if to == k {
+			return false
+		}
+	}
+	return true
+}
+
+// expandedFuncs: root, its closures, and — transitively — the helpers of the same package that the
+// reference tree does not know (code that a refactoring moved out of root), in a stable order.
+func (p *Program) expandedFuncs(root *ssa.Function) []*ssa.Function {
+	var out []*ssa.Function
+	seen := map[*ssa.Function]bool{}
+	var walk func(f *ssa.Function)
+	walk = func(f *ssa.Function) {
+		if f == nil || seen[f] || len(f.Blocks) == 0 {
+			return
+		}
+		seen[f] = true
+		out = append(out, f)
+		for _, a := range f.AnonFuncs {
+			walk(a)
+		}
+		for _, b := range f.Blocks {
+			for _, ins := range b.Instrs {
+				if cc, ok := ins.(ssa.CallInstruction); ok {
+					if k := staticCallee(cc.Common()); k != nil && fnPkg(k) == fnPkg(root) && p.isNewFunc(k) {
+						walk(k)
+					}
+				}
+			}
+		}
+	}
+	walk(root)
+	return out
+}
